@@ -112,6 +112,66 @@ func (ex *Exec) registerStubs() {
 		st.protected = nil
 		return ret1(st, nil)
 	}
+	// ---- consumer script, context and WaitGroup for the sequentialised goroutine model ----
+	I["verif:verifconsumerscript"] = func(ex *Exec, st *State, _ *ssa.CallCommon, a []Value) []Outcome {
+		st.script = threadScript{budget: ex.argInt(a[0]), willCancel: a[1].(*Term).c != 0, set: true}
+		return ret1(st, nil)
+	}
+	I["context.WithCancel"] = func(ex *Exec, st *State, call *ssa.CallCommon, a []Value) []Outcome {
+		ct := ex.prog.ImportedPackage("context").Type("cancelCtx").Type()
+		done := st.alloc(nil, &ChanData{}, "ctx.Done")
+		nc := map[int]bool{}
+		for k, v := range st.ctxChans {
+			nc[k] = v
+		}
+		nc[done] = true
+		st.ctxChans = nc
+		// the context object: only identity matters; Done/Err are intercepted
+		id := st.alloc(ct, &StructV{[]Value{ChanV{done}}}, "ctx")
+		cancel := FuncV{builtin: "ctxcancel", env: []Value{ChanV{done}}}
+		return ret1(st, TupleV{IfaceV{typ: types.NewPointer(ct), val: Ptr{obj: id}}, cancel})
+	}
+	I["(*context.cancelCtx).Done"] = func(ex *Exec, st *State, _ *ssa.CallCommon, a []Value) []Outcome {
+		p := a[0].(Ptr)
+		return ret1(st, st.obj(p.obj).val.(*StructV).f[0])
+	}
+	I["(*context.cancelCtx).Err"] = func(ex *Exec, st *State, _ *ssa.CallCommon, a []Value) []Outcome {
+		p := a[0].(Ptr)
+		ch := st.obj(p.obj).val.(*StructV).f[0].(ChanV)
+		if st.obj(ch.obj).val.(*ChanData).closed {
+			return ret1(st, ex.newError(st, "context canceled"))
+		}
+		return ret1(st, IfaceV{})
+	}
+	I["context.Background"] = func(ex *Exec, st *State, call *ssa.CallCommon, a []Value) []Outcome {
+		return ret1(st, IfaceV{typ: ex.prog.ImportedPackage("context").Type("backgroundCtx").Type(), val: ex.zero(ex.prog.ImportedPackage("context").Type("backgroundCtx").Type())})
+	}
+	wgKey := func(v Value) int { return v.(Ptr).obj*64 + len(v.(Ptr).path) }
+	I["(*sync.WaitGroup).Add"] = func(ex *Exec, st *State, _ *ssa.CallCommon, a []Value) []Outcome {
+		n := map[int]int{}
+		for k, v := range st.wgCount {
+			n[k] = v
+		}
+		n[wgKey(a[0])] += int(sext(a[1].(*Term).c, 64))
+		st.wgCount = n
+		return ret1(st, nil)
+	}
+	I["(*sync.WaitGroup).Done"] = func(ex *Exec, st *State, _ *ssa.CallCommon, a []Value) []Outcome {
+		n := map[int]int{}
+		for k, v := range st.wgCount {
+			n[k] = v
+		}
+		n[wgKey(a[0])]--
+		st.wgCount = n
+		return ret1(st, nil)
+	}
+	I["(*sync.WaitGroup).Wait"] = func(ex *Exec, st *State, _ *ssa.CallCommon, a []Value) []Outcome {
+		if st.wgCount[wgKey(a[0])] > 0 {
+			ex.deadlock(st, ex.cur, "WaitGroup.Wait blocks forever: the goroutine it waits for has finished without Done, or never ran")
+			return nil
+		}
+		return ret1(st, nil)
+	}
 	fileT := func() types.Type {
 		return ex.prog.ImportedPackage("os").Type("File").Type()
 	}
